@@ -199,37 +199,67 @@ def expand4(usb_cycles):
     return out
 
 
-def utmi_tx(rng, pkts, gaps, idle, pre, mode=0):
-    """A UTMI-conformant transmit history (per usb cycle): tx_valid rises with the first byte, every byte is held
-    until the cycle in which tx_ready is high, tx_valid falls after the last byte's tx_ready.  tx_ready of byte k is
-    predicted from the line code: it is high while bit 0 of byte k leaves the shifter, i.e. in usb cycle
-    j0 + 9 + (index of that bit in the stuffed stream), j0 = first cycle with tx_valid."""
-    cyc = []
-    def idle_cycles(n):
-        for _ in range(n):
-            cyc.append(dict(tx_data=idle(), tx_valid=0, op_mode=mode))
-    idle_cycles(pre)
-    for pkt, gap in zip(pkts, gaps):
-        st = stuff(bits_of(pkt), 0)
-        # index in the stuffed stream of bit 0 of every byte
-        idx = []; n = 0; pos = 0
-        for k, b in enumerate(bits_of(pkt)):
-            if k % 8 == 0:
-                idx.append(pos)
-            pos += 1
-            if b:
-                n += 1
-                if n == 6:
-                    pos += 1; n = 0
-            else:
-                n = 0
-        j = 0                      # cycles since tx_valid rose
-        for k, byte in enumerate(pkt):
-            r = 9 + idx[k]
-            while j <= r:
-                cyc.append(dict(tx_data=byte, tx_valid=1, op_mode=mode)); j += 1
-        idle_cycles(gap)
-    return cyc
+def utmi_tx_sessions(sessions):
+    """UTMI-conformant transmit histories generated in closed loop with Amaranth's simulator of the CURRENT tree: the
+    driver raises tx_valid with the first byte, samples tx_ready with the usb clock, presents the next byte (or drops
+    tx_valid after the last one) in the cycle after a tx_ready, and shows idle() on tx_data while tx_valid = 0.
+    sessions: list of (packets, gaps, idle, pre).  Returns one per-usb_io-step input trace per session (step 0 carries
+    usb cycle 0, steps 4j-3..4j carry cycle j).  The harness then replays these traces open loop."""
+    from amaranth.sim import Simulator
+    elab, ins, outs = build_tx()
+    sim = Simulator(elab)
+    for d, ratio in CLOCKS.items():
+        sim.add_clock(1e-6 * ratio, phase=0.5e-6, domain=d)
+    insig = dict(ins); ready = dict(outs)["tx_ready"]
+    box = {}
+
+    async def tb(ctx):
+        pkts, gaps, idle, pre = box["s"]
+        plan = []                       # per usb cycle: None = idle cycle, else (packet index)
+        trace = []
+        state = dict(phase="pre", left=pre, pk=0, idx=0)
+
+        def cycle_inputs():
+            if state["phase"] in ("pre", "gap"):
+                return dict(tx_data=idle(), tx_valid=0, op_mode=0)
+            return dict(tx_data=pkts[state["pk"]][state["idx"]], tx_valid=1, op_mode=0)
+
+        def advance(rdy):
+            if state["phase"] in ("pre", "gap"):
+                state["left"] -= 1
+                if state["left"] <= 0:
+                    if state["pk"] < len(pkts):
+                        state["phase"] = "pkt"; state["idx"] = 0
+                    else:
+                        state["phase"] = "done"
+            elif rdy:
+                state["idx"] += 1
+                if state["idx"] >= len(pkts[state["pk"]]):
+                    state["phase"] = "gap"; state["left"] = gaps[state["pk"]]; state["pk"] += 1
+
+        if state["left"] <= 0:
+            state["phase"] = "pkt"
+        cur = cycle_inputs()
+        step = 0
+        while state["phase"] != "done" and step < 20000:
+            for n, v in cur.items():
+                ctx.set(insig[n], v)
+            trace.append(dict(cur))
+            if step % 4 == 0:           # the usb edge at the end of this step samples tx_ready and the inputs
+                rdy = ctx.get(ready)
+                advance(rdy)
+                if state["phase"] != "done":
+                    cur = cycle_inputs()
+            await ctx.tick("usb_io")
+            step += 1
+        box["trace"] = trace
+    sim.add_testbench(tb)
+    res = []
+    for s_ in sessions:
+        box["s"] = s_
+        sim.reset(); sim.run()
+        res.append(box["trace"])
+    return res
 
 
 def traces(target, rng, tier):
@@ -238,6 +268,7 @@ def traces(target, rng, tier):
     if target.kind == "tx":
         specials = [[0xC3, 0x00, 0xFF, 0xFF, 0x12], [0xD2], [0x4B] + [0xFF] * 7, [0xC3, 0x7E, 0xFC, 0x3F], [0x5A, 0xFF],
                     [0xC3, 0xFF, 0xFF, 0xFF, 0x80, 0x01, 0xFE]]
+        sessions = []
         for k in range(n):
             idle_byte = rng.choice([0x00, 0xFF, 0x7F, 0xFE, None])
             idle = (lambda: rng.getrandbits(8)) if idle_byte is None else (lambda v=idle_byte: v)
@@ -251,7 +282,8 @@ def traces(target, rng, tier):
                         p[0] = rng.choice([0xC3, 0x4B, 0xD2, 0x5A, 0x1E, 0x69, 0xE1, 0x2D, 0xA5])
                     pk.append(p)
             gaps = [rng.randint(16, 30) for _ in pk]
-            out.append(expand4(utmi_tx(rng, pk, gaps, idle, rng.randint(1, 25))))
+            sessions.append((pk, gaps, idle, rng.randint(1, 25)))
+        out += utmi_tx_sessions(sessions)
         # other operating modes and mode changes, non-conformant drivers
         for k in range(max(3, n // 3)):
             tr = []
